@@ -782,6 +782,24 @@ def gen_async(seed: int, tier: str = "quick") -> Dict[str, Any]:
             call.update({"dst": target, "attrs": ["p_out"]})
         sims[b]["beh"]["async_calls"].append(call)
         illegal = {"agent": sims[b]["sid"], "how": how, "target": target, "kind": kind}
+    if rng.random() < 0.25:
+        # a second plant that shares one of the agents: async_requests is a matter of the (plant, agent)
+        # pair, not of the agent alone
+        j = rng.randrange(1, k + 1)
+        A2 = {"sid": "A2", "type": "time-based", "group": 0, "n_ent": 1, "meta_style": 0,
+              "transport": rng.choice(["gated", "gated", "stock", "remote"]),
+              "beh": {"bseed": rng.randrange(1 << 30), "step_sizes": [rng.choice([1, 1, 2, 3])]}}
+        sims.append(A2)
+        c2 = {"src": len(sims) - 1, "se": 0, "dst": j, "de": 0, "pairs": [["p_out", "m_in"]],
+              "shift": 0, "weak": False, "async": True}
+        if sims[j]["type"] == "event-based" or rng.random() < 0.4:
+            c2["pairs"] = []                      # async_requests only
+        conns.append(c2)
+        sims[j]["beh"]["async_calls"].insert(
+            rng.randrange(len(sims[j]["beh"]["async_calls"]) + 1),
+            {"kind": "set_data", "p": rng.choice([0.5, 1.0]), "src_eid": "e0", "dst": "A2.e0", "attr": "m_in"})
+        if rng.random() < 0.4:
+            sims[j]["beh"]["async_calls"].append({"kind": "get_data", "p": 0.7, "dst": "A2.e0", "attrs": ["p_out"]})
     cfg = {"cache": rng.random() < 0.5, "lazy": rng.random() < 0.5, "debug": False, "mli": 100,
            "start_seed": rng.choice([None, rng.randrange(1 << 30)]), "connect_seed": None,
            "order_seed": None, "iteration_cost": rng.choice([0.0, 1e-5])}
